@@ -21,14 +21,17 @@ import (
 func TestMain(m *testing.M) { ev.Main(m, "C03") }
 
 type Step struct {
-	Op   string `json:"op"`   // send | ack | early | near | late | end
+	Op   string `json:"op"`   // send | ack | early | near | late | end | pub2
 	S    int    `json:"s"`    // subscriber index (ack, end)
-	K    int    `json:"k"`    // ack: index into that subscriber's in-flight list (mod len); -1 = an identifier that is not in flight
+	K    int    `json:"k"`    // ack, pub2: index into that subscriber's in-flight list (mod len); -1 = an identifier that is not in flight
 	Type string `json:"type"` // ack: puback pubrec pubrel pubcomp
 }
 
 type Case struct {
-	SubQoS []int  `json:"sub_qos"` // one subscriber per entry, subscribed to "t/#" with that QoS (1 or 2)
+	// one subscriber per entry, subscribed to "t/#" with that requested QoS: 1 or 2 (judged in
+	// full), 0 (one QoS 0 copy, nothing in flight) or 3 (not a QoS: what such a subscriber is
+	// sent is not judged, but it must not cost the others anything, identifiers included)
+	SubQoS []int  `json:"sub_qos"`
 	Steps  []Step `json:"steps"`
 }
 
@@ -91,9 +94,10 @@ func run(c Case) (f *failure, nontrivial bool) {
 		seenRx[i] = len(k.Rx)
 		return out
 	}
+	invalid := func(i int) bool { return c.SubQoS[i] > 2 }
 	expectNothing := func(si int, what string) *failure {
 		for i := range subs {
-			if got := fresh(i); len(got) != 0 {
+			if got := fresh(i); len(got) != 0 && !invalid(i) {
 				return &failure{fmt.Sprintf("step %d (%s): sub%d received %v, expected nothing", si, what, i, got), false}
 			}
 		}
@@ -125,6 +129,15 @@ func run(c Case) (f *failure, nontrivial bool) {
 				if ended[i] {
 					if len(got) != 0 {
 						return &failure{fmt.Sprintf("step %d: ended sub%d received %v", si, i, got), false}, nontrivial
+					}
+					continue
+				}
+				if invalid(i) {
+					continue
+				}
+				if c.SubQoS[i] == 0 {
+					if len(got) != 1 || got[0].Type != sim.PUBLISH || got[0].Payload != payload || got[0].Topic != "t/x" || got[0].QoS != 0 {
+						return &failure{fmt.Sprintf("step %d (send %s): sub%d received %v, want exactly one PUBLISH t/x=%s at QoS 0", si, payload, i, got, payload), false}, nontrivial
 					}
 					continue
 				}
@@ -202,6 +215,9 @@ func run(c Case) (f *failure, nontrivial bool) {
 					}
 					continue
 				}
+				if invalid(i) {
+					continue
+				}
 				want := map[string]int{}
 				for _, fl := range inflight[i] {
 					if fl.phase == "pubcomp" {
@@ -254,6 +270,9 @@ func run(c Case) (f *failure, nontrivial bool) {
 					}
 					continue
 				}
+				if invalid(i) {
+					continue
+				}
 				allowed := map[string]int{}
 				for _, fl := range inflight[i] {
 					if fl.phase == "pubcomp" {
@@ -273,6 +292,50 @@ func run(c Case) (f *failure, nontrivial bool) {
 					allowed[k]--
 					retransmissions++
 				}
+			}
+		case "pub2":
+			// the subscriber publishes a QoS 2 message of its own (to a topic nobody listens to)
+			// whose packet identifier is one the broker is using towards it: client-chosen and
+			// broker-chosen identifiers are independent in MQTT. The broker may serve both
+			// exchanges or end the session; it must not forget the delivery that is in flight.
+			if st.S >= len(subs) || ended[st.S] || invalid(st.S) {
+				continue
+			}
+			id := uint16(50000 + si)
+			collides := false
+			if st.K >= 0 && len(inflight[st.S]) > 0 {
+				id = inflight[st.S][st.K%len(inflight[st.S])].id
+				collides = true
+			}
+			k := subs[st.S]
+			k.Send(sim.EncPublish("other/x", []byte("up"), 2, false, false, id))
+			if f := settle(); f != nil {
+				return f, nontrivial
+			}
+			if k.Conn.State().BrokerClosed {
+				if !collides {
+					return &failure{fmt.Sprintf("step %d: sub%d published at QoS 2 with the unused identifier %d and the broker closed the connection", si, st.S, id), false}, nontrivial
+				}
+				fresh(st.S)
+				ended[st.S] = true
+				inflight[st.S] = nil
+				sawWrong = true
+				break
+			}
+			got := fresh(st.S)
+			if len(got) != 1 || got[0].Type != sim.PUBREC || got[0].ID != id {
+				return &failure{fmt.Sprintf("step %d: sub%d published at QoS 2 with identifier %d (in use by a delivery: %v): received %v, want one PUBREC %d (or the session ended)", si, st.S, id, collides, got, id), false}, nontrivial
+			}
+			k.Send(sim.EncAck(sim.PUBREL, id))
+			if f := settle(); f != nil {
+				return f, nontrivial
+			}
+			got = fresh(st.S)
+			if len(got) != 1 || got[0].Type != sim.PUBCOMP || got[0].ID != id {
+				return &failure{fmt.Sprintf("step %d: sub%d released its QoS 2 publish %d: received %v, want one PUBCOMP %d", si, st.S, id, got, id), false}, nontrivial
+			}
+			if collides {
+				sawWrong = true
 			}
 		case "end":
 			if st.S >= len(subs) || ended[st.S] {
@@ -366,7 +429,7 @@ func TestRandom(t *testing.T) {
 		c := Case{}
 		ns := rapid.IntRange(1, 3).Draw(t, "subs")
 		for i := 0; i < ns; i++ {
-			c.SubQoS = append(c.SubQoS, rapid.IntRange(1, 2).Draw(t, "subqos"))
+			c.SubQoS = append(c.SubQoS, rapid.SampledFrom([]int{1, 2, 1, 2, 1, 2, 1, 2, 0, 3}).Draw(t, "subqos"))
 		}
 		n := rapid.IntRange(3, 24).Draw(t, "steps")
 		c.Steps = append(c.Steps, Step{Op: "send"})
@@ -388,7 +451,11 @@ func TestRandom(t *testing.T) {
 			case x < 18:
 				c.Steps = append(c.Steps, Step{Op: "early"})
 			case x < 19:
-				c.Steps = append(c.Steps, Step{Op: "near"})
+				k := rapid.IntRange(0, 5).Draw(t, "k")
+				if rapid.IntRange(0, 3).Draw(t, "unusedId") == 0 {
+					k = -1
+				}
+				c.Steps = append(c.Steps, Step{Op: "pub2", S: rapid.IntRange(0, ns-1).Draw(t, "s"), K: k})
 			default:
 				c.Steps = append(c.Steps, Step{Op: "end", S: rapid.IntRange(0, ns-1).Draw(t, "s")})
 			}
